@@ -1828,4 +1828,154 @@ theorem wrapperRun_rel (c : Ctx) (ts : List Target) (body : Except Rej (List Op)
         simp only [TreeRel, bind, Except.bind, pure, Except.pure, List.map_cons, Op.toEntry] at h ⊢
         exact List.Perm.cons _ h
 
+/-- `Dohtml._allowed_file` (`splitext` of the basename) is the suffix test of the specification: the part after
+the last dot of the last path component when something non-empty precedes that dot, the empty suffix otherwise,
+or a `-f` name -/
+theorem htmlAllowed_eq (o : HtmlOpts) (arg : Str) :
+    htmlAllowed o arg =
+      ((hasStem (splitOn '.' (lastComp arg)) &&
+          (htmlAllowedExts o).contains ((splitOn '.' (lastComp arg)).getLast?.getD [])) ||
+        (!hasStem (splitOn '.' (lastComp arg)) && (htmlAllowedExts o).contains []) ||
+        o.fFiles.contains (lastComp arg)) := by
+  unfold htmlAllowed
+  simp only [basename_eq_lastComp, splitext_snd]
+  cases hasStem (splitOn '.' (lastComp arg)) <;> simp
+
+/-- `dohtml`, whole request, against the prescribed entries -/
+theorem dohtml_rel (c : Ctx) (o : HtmlOpts) (ts : List Target) :
+    TreeRel (installPlan (.dohtml o) c ts) (prescribed (.dohtml o) c ts) := by
+  have hp : prescribed (.dohtml o) c ts =
+      withDest { c with dest := pjoin c.dest (lstripSlash o.docPrefix) } ts
+        (filesAndTrees { c with dest := pjoin c.dest (lstripSlash o.docPrefix) } o.recursive ts
+          (fun f => htmlAllowed o f.arg) (fun d => !o.xDirs.contains d.arg)) := by
+    unfold prescribed
+    simp only []
+    congr 2
+    funext t
+    rw [htmlAllowed_eq]
+    rfl
+  rw [hp]
+  unfold installPlan
+  simp only []
+  apply wrapperRun_rel
+  apply filesAndTrees_rel
+  unfold dohtmlTargets
+  cases o.recursive <;> simp
+
+/-- a successful `dohtml` plan, spelled out: directories only with `-r`; the trees of the directory arguments not
+named by `-x`, the file arguments that pass the suffix / `-f` test under their own names, all below `--dest` joined
+with the `-p` prefix -/
+theorem dohtml_ok (c : Ctx) (o : HtmlOpts) (ts : List Target) (ops : List Op)
+    (hok : installPlan (.dohtml o) c ts = .ok ops) :
+    ∃ ds fs,
+      (ts.filter (·.isDir) ≠ [] → o.recursive = true) ∧
+      trees { c with dest := pjoin c.dest (lstripSlash o.docPrefix) }
+        ((ts.filter (·.isDir)).filter fun d => !o.xDirs.contains d.arg) = .ok ds ∧
+      byName { c with dest := pjoin c.dest (lstripSlash o.docPrefix) }
+        ((ts.filter (!·.isDir)).filter fun t =>
+          (hasStem (splitOn '.' (lastComp t.arg)) &&
+              (htmlAllowedExts o).contains ((splitOn '.' (lastComp t.arg)).getLast?.getD [])) ||
+            (!hasStem (splitOn '.' (lastComp t.arg)) && (htmlAllowedExts o).contains []) ||
+            o.fFiles.contains (lastComp t.arg)) = .ok fs ∧
+      (ops.map Op.toEntry).Perm
+        (Entry.dir (toPath (pjoin c.dest (lstripSlash o.docPrefix))) none :: (ds ++ fs)) := by
+  have h := dohtml_rel c o ts
+  rw [hok] at h
+  unfold prescribed withDest filesAndTrees isDirArg htmlAllowedExts at *
+  simp only [] at h
+  cases hargs : argsOk ts with
+  | error e => rw [hargs] at h; simp [TreeRel, bind, Except.bind] at h
+  | ok _ =>
+    rw [hargs] at h
+    by_cases hd : ts.filter (·.isDir) ≠ [] ∧ (!o.recursive) = true
+    · rw [if_pos hd] at h; simp [TreeRel, bind, Except.bind] at h
+    · rw [if_neg hd] at h
+      revert h
+      generalize trees _ _ = T
+      generalize byName _ _ = B
+      intro h
+      cases T with
+      | error e => simp [TreeRel, bind, Except.bind] at h
+      | ok ds =>
+        cases B with
+        | error e => simp [TreeRel, bind, Except.bind] at h
+        | ok fs =>
+          refine ⟨ds, fs, ?_, rfl, rfl, ?_⟩
+          · intro hne
+            cases hr : o.recursive with
+            | true => rfl
+            | false => exact absurd ⟨hne, by simp [hr]⟩ hd
+          · simpa [TreeRel, bind, Except.bind, pure, Except.pure] using h
+
+/-! ## dohard with a link name ending in a slash: rejected when the plan is run -/
+
+theorem placeLeaf_dir_error (fs : Fs) (p : Path) (n : Node) (h : fs.isDir p = true) :
+    ∃ e, placeLeaf fs p n = .error e := by
+  unfold placeLeaf
+  by_cases hp : p = []
+  · rw [if_pos hp]; exact ⟨_, rfl⟩
+  · rw [if_neg hp]
+    split
+    · exact ⟨_, rfl⟩
+    · split
+      · exact ⟨_, rfl⟩
+      · cases hfp : fs p with
+        | none => simp [Fs.isDir, hp, hfp] at h
+        | some nd =>
+          cases nd with
+          | dir m => exact ⟨_, rfl⟩
+          | file m id => simp [Fs.isDir, hp, hfp] at h
+          | link t a b => simp [Fs.isDir, hp, hfp] at h
+
+theorem hardlink_onto_dir_error (u : Umask) (fs : Fs) (src p : Path) (h : fs.isDir p = true) :
+    ∃ e, applyOp u fs (.hardlink src p) = .error e := by
+  unfold applyOp
+  split
+  · exact ⟨_, rfl⟩
+  · simp only [applyOpRaw]
+    cases fs src with
+    | none => exact ⟨_, rfl⟩
+    | some nd =>
+      cases nd with
+      | dir m => exact ⟨_, rfl⟩
+      | link t a b => exact ⟨_, rfl⟩
+      | file m id =>
+        simp only []
+        split
+        · exact ⟨_, rfl⟩
+        · exact placeLeaf_dir_error fs p _ h
+
+theorem dohard_trailing_slash_run (c : Ctx) (hc : toPath c.dest = []) (u : Umask) (fs : Fs) (source d : Str) :
+    dohardPlan c source (d ++ ['/']) =
+      .ok [Op.mkdirs (toPath d) c.dirMode, Op.hardlink (toPath source) (toPath d)] ∧
+    ∃ e, execute u fs (dohardPlan c source (d ++ ['/'])) = .error e := by
+  have hplan : dohardPlan c source (d ++ ['/']) =
+      .ok [Op.mkdirs (toPath d) c.dirMode, Op.hardlink (toPath source) (toPath d)] := by
+    unfold dohardPlan symlinkRun
+    have hr : rsplit1Head '/' (d ++ ['/']) = d := rsplit1Head_decomp '/' d [] (by simp)
+    simp [hr, prefixed, hc, toPath_snoc_slash, pure, Except.pure]
+  refine ⟨hplan, ?_⟩
+  rw [hplan]
+  simp only [execute, runOps]
+  cases h1 : applyOp u fs (Op.mkdirs (toPath d) c.dirMode) with
+  | error e => exact ⟨e, rfl⟩
+  | ok fs1 =>
+    have hl := (applyOp_facts u fs fs1 _ h1).2
+    have hdir : fs1.isDir (toPath d) = true := by
+      simp only [Op.path] at hl
+      cases hm : c.dirMode with
+      | none =>
+        rw [hm] at hl
+        rcases hl with h | ⟨m, h⟩
+        · simp [Fs.isDir, h]
+        · simp [Fs.isDir, h]
+      | some a =>
+        rw [hm] at hl
+        rcases hl with h | ⟨m, h⟩
+        · simp [Fs.isDir, h]
+        · simp [Fs.isDir, h]
+    obtain ⟨e, he⟩ := hardlink_onto_dir_error u fs1 (toPath source) (toPath d) hdir
+    simp only [he]
+    exact ⟨e, rfl⟩
+
 end Pkgcore.C33
